@@ -327,7 +327,7 @@ func genRoundCase(r *Rand, i int, tier string) []string {
 	}
 	var offs []uint64
 	for k := 0; k < distinct; k++ {
-		switch r.Intn(10) {
+		switch r.Intn(24) {
 		case 0:
 			offs = append(offs, gap-1)
 		case 1:
